@@ -98,14 +98,14 @@ def stepCand (P : Prepared) (fns : Fns) (ord : Order) (idx : Nat) (c : Cand) (e 
     | _ => pure ()
   return (c', acts)
 
-def runLoopCase (c : Json) (errCap : Nat) (fns : Fns) : LoopOut := Id.run do
+def runLoopCaseWith (c : Json) (errCap : Nat) (fns : Fns) (full : Bool) : LoopOut := Id.run do
   if !(c.getObjVal? "skip" matches .error _) then return { verdict := "skip", detail := .str "harness skipped" }
   if !(getBool c "translatable") then return { verdict := "skip", detail := .str "expression outside the fragment" }
   let some P := decPrepared (getObj c "prepared") errCap | return { verdict := "skip", detail := .str "cannot decode prepared" }
   let events := (getArr c "events").map decEvent
   let obsProvides := (getArr c "provides").map (fun p =>
     (getNat p "event", (⟨getStr p "step", getStr p "stage", decVal (getObj p "input")⟩ : Provide)))
-  let ords := orders P
+  let ords := if full then orders P else [sortedOrder]
   let mut cands : List Cand := [{ s := LoopState.init P }]
   let mut idx := 0
   let mut drainIdx : Option Nat := none
@@ -167,5 +167,10 @@ def runLoopCase (c : Json) (errCap : Nat) (fns : Fns) : LoopOut := Id.run do
       ("n_cands", cands.length),
       ("all_winners", .arr (cands.map (fun c => Json.arr (c.winners.map (fun w => Json.arr #[.str w.1, encVal (canon w.2)])).toArray)).toArray),
       ("model_err", errClassOf (cd.errKinds.map (·.2)))], actions := cd.acts, final := some cd.s, candidates := maxCands }
+
+/-- first the canonical processing order alone (cheap); the search over orders only when that does not explain the run -/
+def runLoopCase (c : Json) (errCap : Nat) (fns : Fns) : LoopOut :=
+  let quick := runLoopCaseWith c errCap fns false
+  if quick.verdict == "diff" then runLoopCaseWith c errCap fns true else quick
 
 end Arca.Driver
